@@ -1044,6 +1044,7 @@ def _sbml_to_model(
             model.getListOfSpecies(),
             model.getListOfReactions(),
             model_groups.getListOfGroups(),
+            model_fbc.getListOfGeneProducts() if model_fbc else [],
         ]:
             sbase: "libsbml.SBase"
             for sbase in obj_list:
